@@ -193,6 +193,33 @@ SessionsOf(x) == {x.snd[i] : i \in 1..Len(x.snd)} \cup {x.rcv[i] : i \in 1..Len(
 Overdue(t) == \E n \in Nodes \ silent : \E b \in SessionsOf(ns[n]) :
                  t - b.act > (IF "st" \in DOMAIN b /\ b.st = WAITING_EOMA THEN T5 ELSE T2) + WakeLat + Tr.expect.slack
 
+\* monitor mode (C08: runs with the job thread pre-empted at an arbitrary source line): the outputs are not predicted
+\* from the model - where the thread was suspended is not observable at the granularity of the model - but every
+\* property monitor runs on what was observed: delivery (intact, once, to the addressed listeners), bus (clearance,
+\* order, decoding), job thread alive, no spin, session tables empty at the end (from the logged projections).
+\* clauses about WHEN a frame is sent: not part of the outcome a pre-empted run is judged by (C08)
+TimingClauses == {"BAM data segments closer than the minimum interval", "BAM data segments further apart than allowed",
+                  "connection-mode data segments closer than the configured minimum interval (first segment after a CTS)",
+                  "connection-mode data segments closer than the configured minimum interval (within a window)"}
+ApplyFree(e) ==
+    LET n == e.node IN
+    CASE e.ev = "api" /\ e.op = "send_pgn" ->
+           LET a == [dp |-> e.dp, pf |-> e.pf, ps |-> e.ps, prio |-> e.prio, sa |-> e.sa, data |-> e.data, t |-> e.t, tl |-> e.tl, ff |-> e.ff]
+           IN S(ns, pc, pend, IF e.ret THEN DmAccept(dm, n, a) ELSE DmRefuse(dm), bm, {})
+      [] e.ev = "tx" ->
+           LET b2 == Bm22Step(bm, dm.acc, Tr.cfg, n, e)
+               \* a hold of a few ms is far below every time-out: in a fault-free run nobody has a reason to abort
+               ab == IF Tr.expect.all /\ IdPf(e.id) = 77 /\ Len(e.data) >= 1 /\ e.data[1] % 16 = FC_ABORT THEN {"connection abort on the bus in a fault-free run"} ELSE {}
+           IN S(ns, pc, pend, dm, b2.bm, (IF Tr.expect.bus THEN b2.bad \ TimingClauses ELSE {}) \cup ab)
+      [] e.ev = "cb" ->
+           LET h == [kind |-> IF Len(e.data) >= 12 /\ e.data[1] % 16 = 3 THEN "eoma" ELSE "msg", tag |-> e.tag, pgn |-> e.pgn, sa |-> e.sa, data |-> e.data]
+               d2 == DmDeliver(dm, Tr.cfg, n, h)
+           IN S(ns, pc, pend, d2.dm, bm, d2.bad)
+      [] e.ev = "abs" -> S([ns EXCEPT ![n].snd = e.snd, ![n].rcv = e.rcv, ![n].mpg = e.mpg], pc, pend, dm, bm, {})
+      [] e.ev = "jobdead" -> Fail("job thread died")
+      [] e.ev = "spin" -> Fail("job thread busy-spins")
+      [] OTHER -> S(ns, pc, pend, dm, bm, {})
+
 Done == l > Len(Ev)
 \* end-of-trace obligations
 Final ==
@@ -203,10 +230,10 @@ Final ==
 
 Step ==
     /\ bad = {} /\ ~Done
-    /\ LET r0 == Apply(Ev[l])
+    /\ LET r0 == IF "free" \in DOMAIN Tr.expect /\ Tr.expect.free THEN ApplyFree(Ev[l]) ELSE Apply(Ev[l])
            retry == r0.bad = {"RETRY"}          \* the state was prepared; the same event is applied again
            r == IF retry THEN [r0 EXCEPT !.bad = {}]
-                ELSE IF r0.bad = {} /\ Overdue(Ev[l].t)
+                ELSE IF r0.bad = {} /\ ~("free" \in DOMAIN Tr.expect /\ Tr.expect.free) /\ Overdue(Ev[l].t)
                 THEN [r0 EXCEPT !.bad = {"session not given up within the standard's time-out"}]
                 ELSE IF r0.bad = {} /\ Dm1Bad(d1, Ev[l]) # {} THEN [r0 EXCEPT !.bad = Dm1Bad(d1, Ev[l])] ELSE r0 IN
        /\ ns' = r.ns /\ pc' = r.pc /\ pend' = r.pend /\ dm' = r.dm /\ bm' = r.bm
